@@ -8,6 +8,7 @@ projection of every intermediate result compared with the exact rational.
 import random
 import warnings
 
+import math
 import common
 import lattice_lib as L
 
@@ -31,6 +32,25 @@ def worker(a):
     for modname in ("tools", "laue"):
         mod = importlib.import_module("xfab." + modname)
         w2 = (L.TWO_PI ** 2) if L.W[modname] else 1.0
+        # integer-typed arguments FIRST (lists of Python ints, integer arrays): a work array or table shaped after the first argument a
+        # function ever saw must not colour the float calls that follow.  4 x 5 x 6 orthogonal: every answer is known exactly.
+        try:
+            w1_ = math.sqrt(w2)
+            ic = [4, 5, 6, 90, 90, 90]
+            pre = [("cell_volume", mod.cell_volume(ic), 120.0),
+                   ("a_to_cell", mod.a_to_cell([[4, 0, 0], [0, 5, 0], [0, 0, 6]]), [4, 5, 6, 90, 90, 90]),
+                   ("a_to_cell(int array)", mod.a_to_cell(np.array([[4, 0, 0], [0, 5, 0], [0, 0, 6]])), [4, 5, 6, 90, 90, 90]),
+                   ("form_a_mat", mod.form_a_mat(ic), [[4, 0, 0], [0, 5, 0], [0, 0, 6]]),
+                   ("form_b_mat", mod.form_b_mat(np.array(ic)), [[w1_ / 4, 0, 0], [0, w1_ / 5, 0], [0, 0, w1_ / 6]]),
+                   ("sintl", mod.sintl(ic, [2, 0, 0]), 0.25),
+                   ("cell_invert", mod.cell_invert(ic), [0.25, 0.2, 1 / 6.0, 90, 90, 90])]
+            if L.W[modname] == 0:
+                pre.append(("b_to_cell", mod.b_to_cell(np.array([[1, 0, 0], [0, 1, 0], [0, 0, 2]])), [1, 1, 0.5, 90, 90, 90]))
+            for nm_, got_, want_ in pre:
+                if not L.close(got_, want_, rel=1e-12, scale=None if nm_ != "form_b_mat" and nm_ != "form_a_mat" else 1.0):
+                    out.append("%s on integer-typed arguments gives %s, expected %s (xfab.%s)" % (nm_, np.asarray(got_, dtype=float).tolist(), want_, modname))
+        except Exception as ex_:
+            out.append("exception %r on integer-typed arguments (xfab.%s)" % (ex_, modname))
         for ui, u in enumerate(us):
             cell0 = L.as_container(L.cell_from_metric(G, u), int(G[0]) + int(G[3]) + len(rec["path"]))
             if rec.get("intcell") and ui == 0:
